@@ -5,7 +5,7 @@
     end lexes to its tokens followed by the tokens of what follows. *)
 From Coq Require Import List NArith ZArith Bool Lia.
 From Verif Require Import Lib.Utf8 Jsonx.Lex Jsonx.LexProofs Jsonx.Tok Jsonx.GoStr Jsonx.Num
-  Jsonx.NumProofs Jsonx.Parse Jsonx.Print Jsonx.PrintProofs.
+  Jsonx.NumProofs Jsonx.Parse Jsonx.ParseProofs Jsonx.Print Jsonx.PrintProofs.
 Import ListNotations.
 Local Open Scope N_scope.
 
@@ -638,3 +638,335 @@ Proof.
 Qed.
 
 End Filters.
+
+(** ** Step 3: the parser on the tokens of a printed value *)
+
+Lemma list_N_eqb_refl l : list_N_eqb l l = true.
+Proof. induction l as [|x l IH]; [reflexivity|]. cbn. now rewrite N.eqb_refl, IH. Qed.
+
+Section ParseBack.
+Context {F : Type}.
+Variable pf : list N -> option F.
+Variable is_print : N -> bool.
+Hypothesis newline_not_printable : is_print 10 = false.
+Variable fin : list ecode.
+
+Definition st_at (ts : list ptok) : pstate :=
+  match ts with
+  | [] => mkSt (eof_tok fin) [] fin [] false
+  | t :: r => mkSt t r fin [] false
+  end.
+
+Lemma p_next_st_at t ts : p_next (st_at (t :: ts)) = st_at ts.
+Proof. destruct ts; reflexivity. Qed.
+
+Definition mk_num (lead : option (list N)) (u : list N) : @value F :=
+  if num_is_float u then VFloat lead u (pf u) else VInt lead u.
+
+Definition num_ast (t : list N) : @value F :=
+  match t with
+  | 45 :: u => mk_num (Some [45]) u
+  | u => mk_num None u
+  end.
+
+Definition key_ast (bare : bool) (k : list N) : okey :=
+  if bare then KIdent k else KStr (go_quote is_print k) (utf8_encode k).
+
+(** The syntax tree the parser builds for a printed value. *)
+Fixpoint ast (v : pvalue) : @value F :=
+  match v with
+  | PNull => VNull
+  | PBool b => VBool b
+  | PNum t => num_ast t
+  | PStr s => VStr (go_quote is_print s) (utf8_encode s)
+  | PArr l => VList (map ast l)
+  | PObj l =>
+      let bare := forallb (fun kv => is_ident_key (fst kv)) l in
+      VObject (map (fun kt : list N * @value F => (key_ast bare (fst kt), snd kt))
+                   (sort_keys (map (fun kv => let '(k, x) := kv in (k, ast x)) l)))
+  end.
+
+Lemma ast_obj l :
+  ast (PObj l) =
+  let bare := forallb (fun kv => is_ident_key (fst kv)) l in
+  VObject (map (fun kv : list N * pvalue => (key_ast bare (fst kv), ast (snd kv))) (sort_keys l)).
+Proof.
+  cbn [ast]. cbv zeta. f_equal.
+  replace (map (fun kv : list N * pvalue => let '(k, x) := kv in (k, ast x)) l)
+    with (map (fun kv : list N * pvalue => (fst kv, ast (snd kv))) l)
+    by (apply map_ext; intros [k x]; reflexivity).
+  rewrite (sort_keys_map ast), map_map. reflexivity.
+Qed.
+
+(** Float literals of the value are within the range of strconv.ParseFloat. *)
+Definition num_okb (t : list N) : bool :=
+  let u := match t with 45 :: u => u | u => u end in
+  if num_is_float u then match pf u with Some _ => true | None => false end else true.
+
+Fixpoint fokb (v : pvalue) : bool :=
+  match v with
+  | PNum t => num_okb t
+  | PArr l => forallb fokb l
+  | PObj l => forallb (fun kv => fokb (snd kv)) l
+  | _ => true
+  end.
+
+Notation mk := (mkp []).
+
+Lemma see_op_at ops ty l ts :
+  see_op ops (st_at (mk (ty, l) :: ts)) = ttype_eqb ty TOperator && existsb (list_N_eqb l) ops.
+Proof.
+  unfold see_op, p_see, st_at. reflexivity.
+Qed.
+
+Lemma expect_op_at op ts :
+  expect_op op (st_at (mk (TOperator, op) :: ts)) = (true, st_at ts).
+Proof.
+  unfold expect_op. change (jail (st_at (mk (TOperator, op) :: ts))) with false. cbv iota.
+  rewrite see_op_at. cbn [ttype_eqb existsb andb].
+  rewrite list_N_eqb_refl. cbn [orb]. now rewrite p_next_st_at.
+Qed.
+
+Definition PV (st : pstate) (r : @value F * pstate) : Prop :=
+  exists f, parse_value pf f st = Some r.
+
+Definition not_close (tl : ttype * list N) : Prop :=
+  ttype_eqb (fst tl) TOperator && (list_N_eqb (snd tl) [93] || list_N_eqb (snd tl) [125]) = false.
+
+Lemma ft_head v : exists t r, ft is_print v = t :: r /\ not_close t.
+Proof.
+  destruct v as [|b|t|s|l|l].
+  - eexists _, _. split; reflexivity.
+  - eexists _, _. split; reflexivity.
+  - cbn [ft]. destruct t as [|c r].
+    + eexists _, _. split; [reflexivity|]. unfold not_close. cbn. destruct (num_is_float []); reflexivity.
+    + destruct (N.eqb_spec c 45) as [->|Hc].
+      * eexists _, _. split; reflexivity.
+      * rewrite (num_ft_other c r Hc). eexists _, _. split; [reflexivity|].
+        unfold not_close. cbn [fst snd]. destruct (num_is_float (c :: r)); reflexivity.
+  - eexists _, _. split; reflexivity.
+  - destruct l; eexists _, _; split; reflexivity.
+  - destruct l as [|m l'].
+    + eexists _, _. split; reflexivity.
+    + rewrite (ft_obj is_print (m :: l') ltac:(discriminate)). eexists _, _. split; reflexivity.
+Qed.
+
+(** The statement for one value. *)
+Definition P3 (v : pvalue) : Prop :=
+  wfpb v = true -> fokb v = true ->
+  forall rest, PV (st_at (map mk (ft is_print v) ++ rest)) (ast v, st_at rest).
+
+Lemma pv_keyword lit rest (r : @value F) :
+  (if list_N_eqb lit lit_true then Some (VBool true, st_at rest)
+   else if list_N_eqb lit lit_false then Some (VBool false, st_at rest)
+   else if list_N_eqb lit lit_null then Some (VNull, st_at rest)
+   else Some (VNil, p_add EUnexpectedKeyword (st_at rest))) = Some (r, st_at rest) ->
+  PV (st_at (mk (TKeyword, lit) :: rest)) (r, st_at rest).
+Proof.
+  intros H. exists 1%nat. rewrite parse_value_S. unfold pv_body.
+  cbn [st_at cur mkp fst snd pty plit]. change (p_next (mkSt (mk (TKeyword, lit)) rest fin [] false))
+    with (p_next (st_at (mk (TKeyword, lit) :: rest))). rewrite p_next_st_at. exact H.
+Qed.
+
+Lemma pv_number lead_tok u rest :
+  (if num_is_float u then match pf u with Some _ => true | None => false end else true) = true ->
+  PV (st_at (map mk (match lead_tok with
+                     | true => [(TOperator, [45]); (if num_is_float u then TFloat else TInt, u)]
+                     | false => [(if num_is_float u then TFloat else TInt, u)] end) ++ rest))
+     (mk_num (if lead_tok then Some [45] else None) u, st_at rest).
+Proof.
+  intros Hok. exists 1%nat. rewrite parse_value_S. unfold pv_body, mk_num.
+  destruct lead_tok.
+  - cbn [map app st_at cur mkp fst snd pty plit].
+    change (lit_is (mk (TOperator, [45])) [43] || lit_is (mk (TOperator, [45])) [45]) with true.
+    cbv iota.
+    change (p_next (mkSt (mk (TOperator, [45]))
+              (mk (if num_is_float u then TFloat else TInt, u) :: rest) fin [] false))
+      with (st_at (mk (if num_is_float u then TFloat else TInt, u) :: rest)).
+    destruct (num_is_float u); cbn [st_at cur mkp fst snd pty plit].
+    + unfold parse_float_value. cbn [plit mkp snd].
+      destruct (pf u) as [f|]; [|discriminate].
+      change (p_next (mkSt (mk (TFloat, u)) rest fin [] false)) with (p_next (st_at (mk (TFloat, u) :: rest))).
+      now rewrite p_next_st_at.
+    + change (p_next (mkSt (mk (TInt, u)) rest fin [] false)) with (p_next (st_at (mk (TInt, u) :: rest))).
+      now rewrite p_next_st_at.
+  - cbn [map app]. destruct (num_is_float u); cbn [st_at cur mkp fst snd pty plit].
+    + unfold parse_float_value. cbn [plit mkp snd].
+      destruct (pf u) as [f|]; [|discriminate].
+      change (p_next (mkSt (mk (TFloat, u)) rest fin [] false)) with (p_next (st_at (mk (TFloat, u) :: rest))).
+      now rewrite p_next_st_at.
+    + change (p_next (mkSt (mk (TInt, u)) rest fin [] false)) with (p_next (st_at (mk (TInt, u) :: rest))).
+      now rewrite p_next_st_at.
+Qed.
+
+Lemma pv_string rs rest : forallb valid_rune rs = true ->
+  PV (st_at (mk (TString, go_quote is_print rs) :: rest))
+     (VStr (go_quote is_print rs) (utf8_encode rs), st_at rest).
+Proof.
+  intros Hv. exists 1%nat. rewrite parse_value_S. unfold pv_body.
+  cbn [st_at cur mkp fst snd pty plit]. unfold parse_string_value. cbn [plit mkp snd].
+  rewrite (go_quote_unquotes is_print newline_not_printable rs Hv).
+  change (p_next (mkSt (mk (TString, go_quote is_print rs)) rest fin [] false))
+    with (p_next (st_at (mk (TString, go_quote is_print rs) :: rest))).
+  now rewrite p_next_st_at.
+Qed.
+
+(** List entries. *)
+Lemma ple_items : forall xs, Forall P3 xs ->
+  forallb wfpb xs = true -> forallb fokb xs = true ->
+  forall acc rest, exists f,
+    parse_list_entries pf f
+      (st_at (map mk (flat_map (fun x => ft is_print x ++ [(TOperator, [44])]) xs)
+              ++ mk (TOperator, [93]) :: rest)) acc
+    = Some (acc ++ map ast xs, st_at (mk (TOperator, [93]) :: rest)).
+Proof.
+  induction 1 as [|x xs Hx Hxs IH]; intros Hw Hf acc rest.
+  - exists 1%nat. rewrite parse_list_entries_S. unfold ple_body. cbn [flat_map map app].
+    rewrite see_op_at. cbn. now rewrite app_nil_r.
+  - cbn [forallb] in Hw, Hf. apply andb_true_iff in Hw as [Hwx Hwxs]. apply andb_true_iff in Hf as [Hfx Hfxs].
+    cbn [flat_map]. rewrite !map_app, <- !app_assoc. cbn [map app].
+    set (tail := map mk (flat_map (fun x0 => ft is_print x0 ++ [(TOperator, [44])]) xs)
+                 ++ mk (TOperator, [93]) :: rest).
+    destruct (Hx Hwx Hfx (mk (TOperator, [44]) :: tail)) as [f1 E1].
+    destruct (IH Hwxs Hfxs (acc ++ [ast x]) rest) as [f2 E2]. fold tail in E2.
+    exists (S (max f1 f2)). rewrite parse_list_entries_S. unfold ple_body.
+    destruct (ft_head x) as (t & r & Eft & Hnc). rewrite Eft. cbn [map app].
+    destruct t as [ty l]. rewrite see_op_at.
+    assert (Hns : ttype_eqb ty TOperator && existsb (list_N_eqb l) [[93]] = false).
+    { unfold not_close in Hnc. cbn [fst snd existsb] in *.
+      destruct (ttype_eqb ty TOperator); [|reflexivity]. cbn [andb] in *.
+      apply orb_false_iff in Hnc as [Hnc _]. now rewrite Hnc. }
+    rewrite Hns.
+    change (mk (ty, l) :: map mk r ++ mk (TOperator, [44]) :: tail)
+      with (map mk ((ty, l) :: r) ++ mk (TOperator, [44]) :: tail). rewrite <- Eft.
+    rewrite (parse_value_mono pf f1 (max f1 f2) _ _ ltac:(lia) E1).
+    rewrite see_op_at. cbn [ttype_eqb existsb list_N_eqb N.eqb Pos.eqb andb orb].
+    rewrite p_next_st_at.
+    assert (Hj : jail (st_at tail) = false) by (destruct tail; reflexivity). rewrite Hj.
+    rewrite (parse_list_entries_mono pf f2 (max f1 f2) _ _ _ ltac:(lia) E2).
+    now rewrite <- app_assoc.
+Qed.
+
+(** Object entries. *)
+Lemma poe_items bare : forall xs,
+  Forall (fun kv : list N * pvalue => P3 (snd kv)) xs ->
+  forallb (fun kv : list N * pvalue => forallb valid_rune (fst kv) && wfpb (snd kv)) xs = true ->
+  forallb (fun kv : list N * pvalue => fokb (snd kv)) xs = true ->
+  forall acc rest, exists f,
+    parse_object_entries pf f
+      (st_at (map mk (flat_map (fun kv : list N * pvalue =>
+                        key_ft is_print bare (fst kv) :: (TOperator, [58]) :: ft is_print (snd kv)
+                          ++ [(TOperator, [44])]) xs)
+              ++ mk (TOperator, [125]) :: rest)) acc
+    = Some (acc ++ map (fun kv : list N * pvalue => (key_ast bare (fst kv), ast (snd kv))) xs,
+            st_at (mk (TOperator, [125]) :: rest)).
+Proof.
+  induction 1 as [|[k x] xs Hx Hxs IH]; intros Hw Hf acc rest.
+  - exists 1%nat. rewrite parse_object_entries_S. unfold poe_body. cbn [flat_map map app].
+    rewrite see_op_at. cbn. now rewrite app_nil_r.
+  - cbn [forallb fst snd] in *. apply andb_true_iff in Hw as [Hwx Hwxs].
+    apply andb_true_iff in Hwx as [Hk Hwx]. apply andb_true_iff in Hf as [Hfx Hfxs].
+    cbn [flat_map]. cbn [fst snd]. rewrite !map_app, <- !app_assoc. cbn [map app].
+    rewrite map_app, <- app_assoc. cbn [map app].
+    set (tail := map mk (flat_map (fun kv : list N * pvalue =>
+                        key_ft is_print bare (fst kv) :: (TOperator, [58]) :: ft is_print (snd kv)
+                          ++ [(TOperator, [44])]) xs)
+                 ++ mk (TOperator, [125]) :: rest).
+    destruct (Hx Hwx Hfx (mk (TOperator, [44]) :: tail)) as [f1 E1].
+    destruct (IH Hwxs Hfxs (acc ++ [(key_ast bare k, ast x)]) rest) as [f2 E2]. fold tail in E2.
+    exists (S (max f1 f2)). rewrite parse_object_entries_S. unfold poe_body.
+    set (vt := map mk (ft is_print x) ++ mk (TOperator, [44]) :: tail) in *.
+    assert (Hkey : exists kty klit,
+              mk (key_ft is_print bare k) = mk (kty, klit) /\
+              (kty = TIdent \/ kty = TString) /\
+              (if ttype_eqb kty TString
+               then let '(bs, st2) := parse_string_value (mk (kty, klit)) (st_at (mk (TOperator, [58]) :: vt))
+                    in (KStr (plit (mk (kty, klit))) bs, st2)
+               else (KIdent (plit (mk (kty, klit))), st_at (mk (TOperator, [58]) :: vt)))
+              = (key_ast bare k, st_at (mk (TOperator, [58]) :: vt))).
+    { unfold key_ft, key_ast. destruct bare.
+      - exists TIdent, k. split; [reflexivity|]. split; [now left|reflexivity].
+      - exists TString, (go_quote is_print k). split; [reflexivity|]. split; [now right|].
+        cbn [ttype_eqb]. unfold parse_string_value. cbn [plit mkp snd].
+        now rewrite (go_quote_unquotes is_print newline_not_printable k Hk). }
+    destruct Hkey as (kty & klit & -> & Hkty & Hkv).
+    rewrite see_op_at.
+    assert (E0 : ttype_eqb kty TOperator = false) by (destruct Hkty as [->| ->]; reflexivity).
+    rewrite E0. cbn [andb].
+    assert (E1' : p_see TIdent (st_at (mk (kty, klit) :: mk (TOperator, [58]) :: vt))
+                  || p_see TString (st_at (mk (kty, klit) :: mk (TOperator, [58]) :: vt)) = true).
+    { unfold p_see. cbn [st_at cur mkp fst pty]. destruct Hkty as [->| ->]; reflexivity. }
+    rewrite E1'. cbn [negb].
+    rewrite p_next_st_at.
+    change (cur (st_at (mk (kty, klit) :: mk (TOperator, [58]) :: vt))) with (mk (kty, klit)).
+    change (pty (mk (kty, klit))) with kty.
+    rewrite Hkv. rewrite expect_op_at. cbn [snd].
+    subst vt. rewrite (parse_value_mono pf f1 (max f1 f2) _ _ ltac:(lia) E1).
+    rewrite see_op_at. cbn [ttype_eqb existsb list_N_eqb N.eqb Pos.eqb andb orb].
+    rewrite p_next_st_at.
+    assert (Hj : jail (st_at tail) = false) by (destruct tail; reflexivity). rewrite Hj.
+    rewrite (parse_object_entries_mono pf f2 (max f1 f2) _ _ _ ltac:(lia) E2).
+    now rewrite <- app_assoc.
+Qed.
+
+Theorem parse_printed : forall v, P3 v.
+Proof.
+  induction v as [|b|t|rs|vs IH|ms IH] using pvalue_ind'; intros Hw Hf rest.
+  - apply pv_keyword. reflexivity.
+  - cbn [ft map app ast]. destruct b; apply pv_keyword; reflexivity.
+  - cbn [ft ast wfpb fokb] in *. destruct t as [|c r].
+    + exact (pv_number false [] rest Hf).
+    + destruct (N.eqb_spec c 45) as [->|Hc].
+      * exact (pv_number true r rest Hf).
+      * rewrite (num_ft_other c r Hc).
+        assert (E : num_ast (c :: r) = mk_num None (c :: r)).
+        { unfold num_ast. destruct c as [|p]; [reflexivity|].
+          repeat (destruct p as [p|p|]; try reflexivity). contradiction. }
+        assert (Hf' : (if num_is_float (c :: r) then match pf (c :: r) with Some _ => true | None => false end
+                       else true) = true).
+        { unfold num_okb in Hf. destruct c as [|p]; [exact Hf|].
+          repeat (destruct p as [p|p|]; try exact Hf). contradiction. }
+        rewrite E. exact (pv_number false (c :: r) rest Hf').
+  - cbn [ft map app ast wfpb] in *. now apply pv_string.
+  - (* array *)
+    cbn [wfpb fokb ast] in *.
+    assert (Hft : ft is_print (PArr vs)
+                  = (TOperator, [91]) :: flat_map (fun x => ft is_print x ++ [(TOperator, [44])]) vs
+                      ++ [(TOperator, [93])]) by (destruct vs; reflexivity).
+    rewrite Hft. cbn [map app]. rewrite map_app, <- app_assoc. cbn [map app].
+    destruct (ple_items vs IH Hw Hf [] rest) as [f E].
+    exists (S f). rewrite parse_value_S. unfold pv_body.
+    cbn [st_at cur mkp fst snd pty].
+    change (lit_is (mk (TOperator, [91])) [43] || lit_is (mk (TOperator, [91])) [45]) with false.
+    change (lit_is (mk (TOperator, [91])) [123]) with false.
+    change (lit_is (mk (TOperator, [91])) [91]) with true. cbv iota.
+    match goal with |- context [p_next ?s] =>
+      change (p_next s) with (p_next (st_at (mk (TOperator, [91]) ::
+        (map mk (flat_map (fun x => ft is_print x ++ [(TOperator, [44])]) vs) ++ mk (TOperator, [93]) :: rest)))) end.
+    rewrite p_next_st_at, E. now rewrite expect_op_at.
+  - (* object *)
+    cbn [wfpb fokb] in *. rewrite ast_obj. cbv zeta.
+    assert (Hft : ft is_print (PObj ms)
+                  = (TOperator, [123]) :: flat_map (fun kv : list N * pvalue =>
+                        key_ft is_print (forallb (fun kv => is_ident_key (fst kv)) ms) (fst kv)
+                          :: (TOperator, [58]) :: ft is_print (snd kv) ++ [(TOperator, [44])])
+                      (sort_keys ms) ++ [(TOperator, [125])]).
+    { destruct ms as [|m ms']; [reflexivity|]. apply (ft_obj is_print (m :: ms')). discriminate. }
+    rewrite Hft. cbn [map app]. rewrite map_app, <- app_assoc. cbn [map app].
+    destruct (poe_items (forallb (fun kv => is_ident_key (fst kv)) ms) (sort_keys ms)
+                (Forall_sort_keys _ _ IH) (forallb_sort_keys _ _ Hw) (forallb_sort_keys _ _ Hf) [] rest)
+      as [f E].
+    exists (S f). rewrite parse_value_S. unfold pv_body.
+    cbn [st_at cur mkp fst snd pty].
+    change (lit_is (mk (TOperator, [123])) [43] || lit_is (mk (TOperator, [123])) [45]) with false.
+    change (lit_is (mk (TOperator, [123])) [123]) with true. cbv iota.
+    match goal with |- context [p_next ?s] =>
+      change (p_next s) with (p_next (st_at (mk (TOperator, [123]) ::
+        (map mk (flat_map (fun kv : list N * pvalue =>
+                        key_ft is_print (forallb (fun kv => is_ident_key (fst kv)) ms) (fst kv)
+                          :: (TOperator, [58]) :: ft is_print (snd kv) ++ [(TOperator, [44])])
+                      (sort_keys ms)) ++ mk (TOperator, [125]) :: rest)))) end.
+    rewrite p_next_st_at, E. now rewrite expect_op_at.
+Qed.
+
+End ParseBack.
